@@ -32,7 +32,11 @@ pub fn remove_oscat_comment(source: String) -> String {
                     if c == '\n' {
                         output.push('\n');
                     } else {
-                        output.push(' ');
+                        // One space for each byte of the character so that
+                        // the byte positions after the comment do not change.
+                        for _ in 0..c.len_utf8() {
+                            output.push(' ');
+                        }
                     }
                 }
 
